@@ -256,7 +256,7 @@ def check_case(case, acc=None) -> Outcome:
 
 def shards(tier):
     if tier == "quick":
-        return [{"kind": "program", "name": f"s{i}", "n": 9, "rotate": 37 + i * 67} for i in range(8)]
+        return [{"kind": "program", "name": f"s{i}", "n": 6, "rotate": 37 + i * 67} for i in range(8)]
     return [{"kind": "program", "name": f"s{i}", "n": 90, "rotate": 37 + i * 67} for i in range(16)]
 
 
